@@ -416,6 +416,9 @@ func (c *Cluster) handleMulti(req *Request) *Reply {
 		var ones []one
 		for _, a := range ra.Actions {
 			res, cells, _, exc := c.execAction(req, a)
+			if exc != nil && exc.Omit {
+				continue // a response that leaves this action out
+			}
 			roe := &pb.ResultOrException{Index: proto.Uint32(a.Index)}
 			if exc != nil {
 				roe.Exception = excPair(exc)
